@@ -142,6 +142,59 @@ def worlds(draw, max_layers=4, min_layers=0, hooks='any', faults=None, nie=0, la
     return {'layers': layers, 'modules': modules}
 
 
+@st.composite
+def shaped_world(draw, kinds=('pass', 'pass', 'fail', 'error', 'skip_body'), excs=SIMPLE_EXCS, nie=True):
+    """A directed layer topology: one base LA, two layers LB(LA) and LC(LA) derived from it, one unrelated layer LD
+    (optionally with its own base LE); tests in every layer, in that run order.  Faults are drawn per hook from
+    {none, exception, NotImplementedError (tearDown only)}.  The shape makes the rare situations frequent that random
+    DAGs almost never hit together: a tear-down *sweep* in the middle of the run that meets a failing tearDown and a
+    NotImplementedError tearDown, two layers sharing a base whose setUp fails, layers left set up when the rest of the
+    run moves to subprocesses."""
+    with_le = draw(st.booleans())
+    layers = [
+        {'name': 'LA', 'kind': 'class', 'bases': [], 'hooks': ['setUp', 'tearDown']},
+        {'name': 'LB', 'kind': 'class', 'bases': [0], 'hooks': ['setUp', 'tearDown']},
+        {'name': 'LC', 'kind': 'class', 'bases': [0], 'hooks': ['setUp', 'tearDown']},
+    ]
+    if with_le:
+        layers.append({'name': 'LE', 'kind': 'class', 'bases': [], 'hooks': ['setUp', 'tearDown']})
+        layers.append({'name': 'LF', 'kind': 'class', 'bases': [3], 'hooks': ['setUp', 'tearDown']})
+    else:
+        layers.append({'name': 'LD', 'kind': 'class', 'bases': [], 'hooks': ['setUp', 'tearDown']})
+    kind = draw(st.sampled_from(['class', 'class', 'inst']))
+    # half of the worlds follow a scenario (exactly the named hooks are faulty), the others draw every hook independently
+    scenario = draw(st.sampled_from(['random', 'random', 'random', 'sweep-exc+nie', 'sweep-nie+exc', 'shared-base-setup',
+                                     'nie-with-base-left', 'derived-setup']))
+    plan = {'sweep-exc+nie': {'LC': 'td-exc', 'LA': 'td-nie'}, 'sweep-nie+exc': {'LC': 'td-nie', 'LA': 'td-exc'},
+            'shared-base-setup': {'LA': 'su-exc'}, 'nie-with-base-left': {'LB': 'td-nie'},
+            'derived-setup': {'LB': 'su-exc'}}.get(scenario)
+    for L in layers:
+        L['kind'] = kind
+        f = {}
+        if plan is not None:
+            r = plan.get(L['name'], 'none')
+        else:
+            r = draw(st.sampled_from(['none', 'none', 'none', 'none', 'td-exc', 'td-exc', 'td-nie', 'td-nie', 'su-exc']))
+        if r == 'td-exc':
+            f['tearDown'] = draw(st.sampled_from(SIMPLE_EXCS))
+        elif r == 'td-nie' and nie:
+            f['tearDown'] = 'NIE'
+        elif r == 'su-exc':
+            f['setUp'] = draw(st.sampled_from(SIMPLE_EXCS))
+        if f:
+            L['faults'] = f
+    cases_ = []
+    with_tests = [i for i in range(len(layers)) if i != 0 or draw(st.booleans())]
+    if with_le and draw(st.booleans()):
+        with_tests = [i for i in with_tests if i != 3]
+    for i in with_tests:
+        cases_.append({'t': 'c', 'name': 'TC%d' % (i + 1), 'layer': i,
+                       'tests': draw(tests_list(kinds=kinds, max_tests=2, excs=excs, weights_good=70))})
+    if draw(st.integers(0, 3)) == 0:
+        cases_.append({'t': 'c', 'name': 'TC9', 'tests': draw(tests_list(kinds=kinds, max_tests=2, excs=excs))})
+    return {'layers': layers, 'modules': [{'name': 'a', 'tree': {'t': 's', 'ch': cases_}}], 'shaped': scenario}
+
+
 def iter_tests(spec):
     def walk(node):
         if node['t'] == 'c':
